@@ -465,6 +465,19 @@ def compare(ctx, res):
             fields = [f for f in fields if f != "bk"]
             if not fields:
                 continue
+        if a.get("ar") != b.get("ar"):
+            # one side says an arithmetic step of the operation left usize (the real code panicked inside the
+            # crate / the model's arithOf has a failing step), the other does not: the accounting arithmetic
+            # (C01/C02) and the operation's own contract
+            own = {"ins": "C10", "tins": "C10", "mut": "C11"}.get(op_name(ops[i]))
+            props = {"C01", "C02"} | ({own} if own else set())
+            start = seq_of(ops, i)
+            newp = {q for q in props if (start, q) not in seen_seq}
+            for q in newp:
+                seen_seq.add((start, q))
+            if newp:
+                out.append({"line": i, "fields": ["ar"], "props": newp, "ops": ops[i], "obs": obs[i], "pred": pred[i], "start": start})
+            continue
         props = set()
         drifted = bool(prior) and bool({"ord", "rord", "rs", "lru", "mru"} & set(fields))
         for f in fields:
